@@ -2,7 +2,7 @@
 
 import math
 
-from kernel.type import RealType
+from kernel.type import NatType, IntType, RealType
 from kernel.term import Term, Var, Lambda, Inst, Nat, Real, Eq
 from kernel.thm import Thm
 from kernel.proofterm import ProofTerm, TacticException
@@ -11,6 +11,7 @@ from kernel.theory import register_macro
 from logic.conv import Conv, ConvException, then_conv, binop_conv, arg_conv, arg1_conv, rewr_conv
 from logic.logic import apply_theorem
 from data import nat
+from data import integer
 from data import real
 from data import set as hol_set
 from logic import auto
@@ -46,6 +47,16 @@ def eval_hol_expr(t: Term):
     to approximate evaluation with real_approx_eval.
 
     """
+    # Natural numbers and integers have their own evaluators (subtraction
+    # on natural numbers is truncated).
+    T = t.get_type()
+    if T == NatType:
+        return nat.nat_eval(t)
+    elif T == IntType:
+        return integer.int_eval(t)
+    elif T != RealType:
+        raise NotImplementedError
+
     try:
         res = real.real_eval(t)
     except ConvException:
